@@ -36,6 +36,27 @@ register("C06", "exploration",
  "invariant over generated histories (trigger audit of durable status changes vs. the published transition table)",
  "DESIGN.md section 3 C06")
 
+register("C14", "exploration",
+ "A FIFO grid over k transient failures (forever, 0..13) x context_update on/off x how the error is raised x task position x chain/join placement, plus Hypothesis-drawn shuffled schedules, judged by a retry model: attempt n+1 sees the progress of failure n, poll context is kept, k<=3 succeeds after exactly k+1 executions, 'forever' is TERMINAL within limit+1 executions and a model-derived step bound. Grid enumerated; schedules random.",
+ "limit = Message.max_attempts default (10); 4<=k<=limit accepted either way; delays fast-forwarded by rewriting deliver_at; SQLite only.",
+ "enumerated grid + Hypothesis schedules against a reference retry model",
+ "DESIGN.md section 3 C14")
+register("C15", "exploration",
+ "A FIFO grid of 10 loop shapes x budget x requested jumps plus Hypothesis-drawn loops (incl. random loops built by construction) under generated schedules, judged by an independent abstract interpreter of the documented jump semantics: applied jumps = min(requested, budget), over-budget/unknown target => source and workflow TERMINAL, per-stage execution counts equal the re-arm closure model, forward-jump bypassed stages SKIPPED and never executed, number of handled jump requests, quiescence within a model-derived step bound.",
+ "One task per stage and AND joins in loop workloads; loop bodies without fan-in from outside the loop; re-armed branches running beside the loop body have a schedule-dependent count (1..applied+1); single worker; SQLite only.",
+ "enumerated grid + Hypothesis loops x schedules against a reference loop model",
+ "DESIGN.md section 3 C15")
+register("C16", "exploration",
+ "For every task execution of generated DAG / loop / reducer workloads under generated schedules, the context handed to Task.execute is compared with a model built from the ledger: visible keys = own + transitive ancestors' current outputs, scalar value = own or a maximal producer's current-iteration value, lists = duplicate-free union, reducers = fold of direct branches; apply_output_reducers is additionally checked on random multisets under all branch permutations.",
+ "Ancestor outputs are re-derived from recorded executions by an independent re-statement of the emit scripts; incomparable maximal producers: any accepted; integer reducer inputs.",
+ "Hypothesis-generated DAGs x schedules, reference data-visibility model over the execution ledger; permutation metamorphic test for reducers",
+ "DESIGN.md section 3 C16")
+register("C17", "exploration",
+ "A cancel is injected before every delivery position of FIFO and two hold-back schedules of 25 fixed specs, and at random positions of Hypothesis-drawn (spec, schedule) pairs; with t = the step at which the cancel flag became durable: no task executes after t, the workflow ends final, CANCELED unless in effect finished (or TERMINAL already recorded), no stage left NOT_STARTED/RUNNING/SUSPENDED/PAUSED, stages with outstanding work at t end CANCELED.",
+ "'Outstanding work' is computed from the ledger and the behaviour scripts; synthetic children's final statuses are not judged; single worker; SQLite only.",
+ "exhaustive cancel-position sweep + Hypothesis specs x schedules, invariant over the history",
+ "DESIGN.md section 3 C17")
+
 NOT_APPLICABLE = {}
 
 def main():
